@@ -40,10 +40,13 @@ type Sched struct {
 
 	rng        RNG
 	pInDen     int // switch with probability 1/pInDen at statement-level yields (0: never)
+	pSyncDen   int // sync-random strategy: switch with probability 1/pSyncDen at synchronisation statements only
 	pBoundDen  int // ... at operation boundaries
 	burstLeft  int // >0: forced switch when it reaches 0
 	burstDen   int // after a switch, with probability 1/burstDen schedule a short burst
 	pct        bool
+	pctSync    bool   // PCT whose change points are counted in synchronisation statements only
+	syncTotal  uint64 // synchronisation statements executed so far in this run
 	pctPrio    [maxClients]int
 	pctChange  []uint64 // global yield counts at which the running client's priority drops
 	pctNextLow int
@@ -56,6 +59,8 @@ type Sched struct {
 	total        uint64
 	maxYields    uint64
 	overBudget   bool
+	tapeFull     bool   // the switch tape overflowed: the run is abandoned, not judged
+	soloYields   uint64 // statements executed in single-client mode since the last reset (sizes the schedule)
 	countOnly    bool   // no scheduling, only the per-operation step budget (single-client runs)
 	opYields     uint64 // statements executed by the operation in flight (countOnly mode)
 	budgetSite   uint32
@@ -64,6 +69,7 @@ type Sched struct {
 	switches     uint64
 	switchesInOp uint64
 	blockedRun   int
+	isBlocked    [maxClients]bool // blocked since the last statement any client completed
 	deadlock     bool
 	deadlockSite uint32
 	sig          uint64 // schedule signature: hash of (client, site) at switch points
@@ -94,7 +100,7 @@ func (s *Sched) Reset(nsites int) {
 	*s = Sched{}
 	s.cover = cov
 	s.coverCount = cc
-	s.maxYields = 64 << 20
+	s.maxYields = runBudget()
 	s.sig = fnvOff
 	s.sigK = fnvOff
 	s.tape = tp[:0]
@@ -119,8 +125,36 @@ func (s *Sched) LoadTape(t []Switch) {
 
 const tapeCap = 1 << 17
 
-// opYieldBudget bounds one operation in single-client runs (the largest legitimate operation seen needs ~10^4).
-const opYieldBudget = 3 << 20
+// opYieldBudget bounds one operation (the largest legitimate operation on tensors of up to 512 elements needs ~10^4
+// statements). Programs over large tensors (setBig) get budgets in proportion.
+var opYieldBudget uint64 = 3 << 20
+
+const (
+	smallOpBudget  = 3 << 20
+	smallRunBudget = 64 << 20
+	bigOpBudget    = 3 << 28
+	bigRunBudget   = 1 << 34
+)
+
+var bigMode bool
+
+// setBig switches the step budgets between ordinary programs and programs that may hold tensors of up to 2^17 elements.
+func setBig(on bool) {
+	bigMode = on
+	S.opYields = 0 // (the count of the previous program's last operation must not meet the new budget)
+	if on {
+		opYieldBudget = bigOpBudget
+	} else {
+		opYieldBudget = smallOpBudget
+	}
+}
+
+func runBudget() uint64 {
+	if bigMode {
+		return bigRunBudget
+	}
+	return smallRunBudget
+}
 
 // tapeAdd records a decision without append/copy: the runtime helpers behind those builtins carry
 // race-detector annotations of their own, and this code runs in client goroutines whose hand-off
@@ -131,6 +165,7 @@ func (s *Sched) tapeAdd(sw Switch) {
 	n := len(s.tape)
 	if n >= cap(s.tape) {
 		s.overBudget = true
+		s.tapeFull = true
 		return
 	}
 	s.tape = s.tape[:n+1]
@@ -224,10 +259,16 @@ func (s *Sched) decide(c int, kind string, site uint32, boundary bool) int {
 			next = c
 		}
 		if must && next == c {
-			next = s.otherUnfinished(c, 0)
+			// (off the tape - a minimisation candidate: rotate through the others, so that a client parked inside a
+			// critical section is reached and two blocked clients cannot pass the turn back and forth for ever)
+			next = s.otherUnfinished(c, s.blockedRun)
 		}
 	} else if s.pct {
-		for len(s.pctChange) > 0 && s.total >= s.pctChange[0] {
+		clock := s.total
+		if s.pctSync {
+			clock = s.syncTotal
+		}
+		for len(s.pctChange) > 0 && clock >= s.pctChange[0] {
 			s.pctChange = s.pctChange[1:]
 			s.pctNextLow--
 			s.pctPrio[c] = s.pctNextLow
@@ -251,6 +292,12 @@ func (s *Sched) decide(c int, kind string, site uint32, boundary bool) int {
 		}
 		if !sw {
 			den := s.pInDen
+			if s.pSyncDen > 0 {
+				den = 0
+				if isSyncSite(site) {
+					den = s.pSyncDen
+				}
+			}
 			if boundary {
 				den = s.pBoundDen
 			}
@@ -312,6 +359,7 @@ func (s *Sched) Yield(site uint32) {
 		if s.countOnly && s.quiet == 0 {
 			// single-client runs (C19, solo oracles): no scheduling, but the step budget still holds
 			s.opYields++
+			s.soloYields++
 			if s.opYields > opYieldBudget {
 				s.budgetSite = site
 				s.opYields = 0
@@ -323,7 +371,10 @@ func (s *Sched) Yield(site uint32) {
 	c := s.cur
 	s.local[c]++
 	s.total++
-	s.blockedRun = 0
+	if isSyncSite(site) {
+		s.syncTotal++
+	}
+	s.progress()
 	s.markCover(site)
 	s.opYc[c]++
 	if s.total > s.maxYields || s.opYc[c] > opYieldBudget {
@@ -358,7 +409,7 @@ func (s *Sched) Boundary() {
 	c := s.cur
 	s.local[c]++
 	s.total++
-	s.blockedRun = 0
+	s.progress()
 	if s.overBudget {
 		return
 	}
@@ -380,13 +431,23 @@ func (s *Sched) Blocked(site uint32) {
 	s.local[c]++
 	s.total++
 	s.blockedRun++
+	s.isBlocked[c] = true
+	// a deadlock: every unfinished client has tried and failed to get past a blocking statement since the last
+	// statement any of them completed (a client parked inside a critical section has not, and will be picked
+	// sooner or later: waiting for it is not a deadlock, however often the blocked ones are picked first)
+	allBlocked := true
+	for i := 0; i < s.n; i++ {
+		if !s.done[i] && !s.isBlocked[i] {
+			allBlocked = false
+		}
+	}
 	alive := 0
 	for i := 0; i < s.n; i++ {
 		if !s.done[i] {
 			alive++
 		}
 	}
-	if s.blockedRun > 3*alive+3 || s.deadlock {
+	if allBlocked || s.deadlock || s.blockedRun > 64*alive+64 {
 		s.deadlock = true
 		if s.deadlockSite == 0 {
 			s.deadlockSite = site
@@ -460,7 +521,42 @@ func (s *Sched) Run(n int, body func(c int)) {
 //go:norace
 func (s *Sched) SetupRandom(r *RNG, n int, expectYields uint64) string {
 	s.rng = r.Fork(0x5c4ed)
-	switch r.Intn(8) {
+	k := r.Intn(8)
+	if k >= 6 && len(syncBits) > 0 {
+		k = 8 + r.Intn(2)
+	}
+	switch k {
+	case 9: // switches only at synchronisation statements (and operation boundaries)
+		s.pSyncDen = []int{2, 3, 4, 8}[r.Intn(4)]
+		s.pBoundDen = 2 + r.Intn(6)
+		return "sync-random"
+	case 8: // PCT over synchronisation statements: few change points, placed where atomicity can break
+		s.pct, s.pctSync = true, true
+		perm := make([]int, n)
+		for i := range perm {
+			perm[i] = i
+		}
+		for i := n - 1; i > 0; i-- {
+			j := r.Intn(i + 1)
+			perm[i], perm[j] = perm[j], perm[i]
+		}
+		for i, c := range perm {
+			s.pctPrio[c] = 100 + i
+		}
+		d := 1 + r.Intn(5)
+		expSync := 8 + expectYields/40
+		if expSync > 400 {
+			expSync = 400
+		}
+		for i := 0; i < d; i++ {
+			s.pctChange = append(s.pctChange, 1+uint64(r.Intn(int(expSync))))
+		}
+		for i := 1; i < len(s.pctChange); i++ {
+			for j := i; j > 0 && s.pctChange[j] < s.pctChange[j-1]; j-- {
+				s.pctChange[j], s.pctChange[j-1] = s.pctChange[j-1], s.pctChange[j]
+			}
+		}
+		return "pct-sync"
 	case 0: // coarse: operation boundaries only
 		s.pInDen, s.pBoundDen = 0, 2
 		return "coarse"
@@ -497,6 +593,32 @@ func (s *Sched) SetupRandom(r *RNG, n int, expectYields uint64) string {
 		if r.Intn(2) == 0 {
 			s.burstDen = 1 + r.Intn(4)
 		}
+		// (long runs - large tensors - get proportionally rarer switches: the tape holds 2^17 of them)
+		if expectYields/uint64(s.pInDen) > 30000 {
+			s.pInDen = int(expectYields/30000) + 1
+		}
 		return "random"
+	}
+}
+
+// syncBits marks the yield sites at (or right after) a synchronisation statement; filled from the site file.
+var syncBits []uint64
+
+//go:norace
+func isSyncSite(site uint32) bool {
+	w := int(site / 64)
+	return w < len(syncBits) && syncBits[w]&(1<<(site%64)) != 0
+}
+
+// progress: a client completed a statement; whoever was blocked may find the world changed.
+//
+//go:norace
+func (s *Sched) progress() {
+	if s.blockedRun == 0 {
+		return
+	}
+	s.blockedRun = 0
+	for i := range s.isBlocked {
+		s.isBlocked[i] = false
 	}
 }
